@@ -21,7 +21,7 @@ def sh(cmd, cwd=WT, timeout=3600):
 
 
 def suite():
-    rc, out = sh("cargo test --workspace --no-fail-fast --offline 2>&1")
+    rc, out = sh("flock /tmp/rink_suite.lock cargo test --workspace --no-fail-fast --offline 2>&1")
     passed = sum(int(m.group(1)) for m in re.finditer(r"test result: \w+\. (\d+) passed", out))
     failed = sum(int(m.group(1)) for m in re.finditer(r"test result: \w+\. \d+ passed; (\d+) failed", out))
     compile_err = "error[" in out or "could not compile" in out
